@@ -208,6 +208,18 @@ class Interp:
             return self.input
         return st.get((pl['l'],), self.input if body.local_ty(pl['l']) in ('f64', '&f64') else TOP)
 
+    def _src_key(self, st, o):
+        """the place an operand was copied from (through chains of scalar copies)"""
+        pl = o.get('copy') or o.get('move')
+        if pl is None:
+            return None
+        k = self._key(pl)
+        n = 0
+        while isinstance(st.get(('alias',) + k), tuple) and n < 6:
+            k = st[('alias',) + k]
+            n += 1
+        return k
+
     def _op(self, st, body, o):
         if 'const' in o:
             v = self._const(o['const'])
@@ -328,6 +340,9 @@ class Interp:
                 v = sub(a, b)
             elif op == 'Mul':
                 v = mul(a, b)
+                ka, kb = self._src_key(st, rv['a']), self._src_key(st, rv['b'])
+                if ka is not None and ka == kb:
+                    v = powi(a, 2)          # both operands are copies of one place: a square
                 if getattr(self, 'observe_mul', None) is not None:
                     self.observe_mul(body, s, a, b)
             elif op == 'Div':
